@@ -93,11 +93,14 @@ func (r *refRenderer) value(tf *tField, v protoreflect.Value) (*jVal, error) {
 	switch tf.Kind {
 	case kEnum:
 		e := r.model.enum(tf.Ref)
-		n := int(v.Enum())
-		if e == nil || n < 0 || n >= len(e.Values) {
-			return nil, fmt.Errorf("harness: enum number %d outside model of %s", n, tf.Ref)
+		if e == nil {
+			return nil, fmt.Errorf("harness: enum %s not in the model", tf.Ref)
 		}
-		return jS(e.Values[n]), nil
+		name, ok := e.nameOf(int32(v.Enum()))
+		if !ok {
+			return nil, fmt.Errorf("harness: enum number %d outside model of %s", v.Enum(), tf.Ref)
+		}
+		return jS(name), nil
 	case kObject, kOneof:
 		return r.message(v.Message())
 	case kJ5Any:
